@@ -305,6 +305,36 @@ def streams(tier, rng):
             return [('error-code-units', 'message %r: queued errors %s, unit by unit the property gives %s' % (msg, ecodes, we))]
         return []
     yield {'name': 'multi-unit', 'coqcheck': True, 'cases': cases, 'project': project, 'oracle': morc, 'nontrivial': lambda c, o: c if ' E-' in o else None}
+    # a quoted string that fits the handler's buffer (terminator included) is delivered whole, in any list position
+    tcases, tinfo = [], {}
+    for _ in range(300 if tier == 'quick' else 4000):
+        bl = rng.choice([2, 3, 4, 8, 8, 16, 33])
+        L = rng.choice([bl - 1, bl - 1, bl - 2, max(bl - 3, 0), 1])
+        L = max(L, 0)
+        t = bytes(rng.choice(b'abcXYZ 019;,') for _ in range(L))
+        q = rng.choice([b'"', b"'"])
+        lit = q + t + q
+        before = rng.choice([b'', b'1 , ', b'"x",'])
+        nb = 0 if not before else 1
+        ops = ['PCHARS:1'] * nb + ['PTEXT:%d:1' % bl]
+        c = gen.scenario(256, 8, [(1, b'T', ';'.join(ops))], [('I', b'T ' + before + lit + b'\n')])
+        tcases.append(c)
+        tinfo[c] = (t, bl)
+
+    def torc(case, out):
+        if out.startswith('X') or ' X' in out:
+            return []
+        t, bl = tinfo[case]
+        import re as _re
+        m = _re.search(r' P8:1:([\d,]*)', out)
+        if not m:
+            return [('text-whole', 'quoted text %r (buffer %d) was not delivered' % (t, bl))]
+        v = [int(x) for x in m.group(1).split(',') if x != '']
+        data = bytes(v[1:])
+        if len(t) <= bl - 1 and data != t:
+            return [('text-whole', 'quoted text %r fits a buffer of %d bytes with its terminator but was delivered as %r' % (t, bl, data))]
+        return []
+    yield {'name': 'text-fit', 'cases': tcases, 'project': project, 'oracle': torc, 'nontrivial': lambda c, o: c if len(tinfo[c][0]) == tinfo[c][1] - 1 else None}
     cases, want = retval_cases(rng, 1500 if tier == 'quick' else 20000)
 
     def orc3(case, out):
